@@ -199,6 +199,25 @@ def run(ctx):
             ring_len = lambda x: x.is_in("crossbeam_queue", "ArrayQueue::len")
             ring = lambda x: ring_const(x) or ring_len(x)
             cpr = pr
+            def ring_kind(body_, op_, depth=2):
+                """'capacity' / 'len-early' when the operand derives from the ring's capacity / its current length; a plain parameter of
+                an extracted method is followed to the method's callers (all of them must agree on 'capacity')"""
+                got_ = set()
+                for x in Prov(body_).operand(op_):
+                    if x[0] == "call" and ring_const(_cs_at(body_, x[1])):
+                        got_.add("capacity")
+                    elif x[0] == "call" and ring_len(_cs_at(body_, x[1])):
+                        got_.add("len-early")
+                    elif x[0] == "arg" and not x[2] and depth > 0 and 1 <= x[1] <= body_.arg_count and body_.local_ty(x[1]) == "usize":
+                        ups = F.callers_of(body_.path, crates=[BG])
+                        ks = {ring_kind(u.body, u.args[x[1] - 1], depth - 1) if len(u.args) >= x[1] else None for u in ups}
+                        if "len-early" in ks:
+                            got_.add("len-early")
+                        elif ks == {"capacity"}:
+                            got_.add("capacity")
+                if "len-early" in got_:
+                    return "len-early"
+                return "capacity" if got_ else None
             kinds = set()      # {'capacity', 'len-lazy', 'len-early', 'none'}
             for ai, a in enumerate(cs.args):
                 l = op_local(a)
@@ -218,18 +237,12 @@ def run(ctx):
                                 if st["k"] == "assign" and st["rv"]["k"] == "agg" and st["rv"].get("closure") == cl.def_:
                                     for nm, op in zip(st["rv"].get("fields", []), st["rv"]["ops"]):
                                         if nm in caps:
-                                            for x in cpr.operand(op):
-                                                if x[0] == "call" and ring_const(_cs_at(cs.body, x[1])):
-                                                    got = "capacity"
-                                                elif x[0] == "call" and ring_len(_cs_at(cs.body, x[1])):
-                                                    got = "len-early"
+                                            got = ring_kind(cs.body, op) or got
                         kinds.add(got)
                 elif aty == "usize" and ai not in (len(cs.args) - 1,):
-                    o = cpr.operand(a)
-                    if any(x[0] == "call" and ring_const(_cs_at(cs.body, x[1])) for x in o):
-                        kinds.add("capacity")
-                    elif any(x[0] == "call" and ring_len(_cs_at(cs.body, x[1])) for x in o):
-                        kinds.add("len-early")
+                    k_ = ring_kind(cs.body, a)
+                    if k_:
+                        kinds.add(k_)
             kinds |= set(bound_fields(F, wv).values())       # the bound kept in a field of the tracker, set once at construction
             ctx.check(bool(kinds & {"capacity", "len-lazy"}) and "len-early" not in kinds, "R04.3", fnkey(cs.body) + "#bound-derives-from-ring", loc(cs.body, cs.bb),
                       ("the entries-before-wake bound is the queue LENGTH sampled before the tracker collects the new flush requests: entries appended "
@@ -305,6 +318,21 @@ def run(ctx):
                                 if y[0] == "const" and isinstance(y[1], tuple) and y[1][0] == "variant":
                                     vs.add(y[1][2])
                         res = vs if c.name == "eq" else allv - vs
+                        # which outcome of the comparison lets the wakers be released?  (`if counter == 0 || status == Drained { wake }` and
+                        # `if counter != 0 && status != Drained { return }` are the same decision)
+                        rel_bbs = {c2.bb for b2, c2 in trackers if b2 is tb} | virtual_release.get(tb.def_, set())
+                        # a side releases *because of* this comparison when every path from it to the return passes the release
+                        direct = lambda t_: t_ is not None and bool(rel_bbs) and tb.must_pass(rel_bbs, start=t_)
+                        undecided = False
+                        for sw_, tg_, oth_ in switch_on_call_result(tb, c):
+                            t_true, t_false = (tg_.get(1, oth_ if 0 in tg_ else None), tg_.get(0, oth_ if 1 in tg_ else None))
+                            on_true, on_false = direct(t_true), direct(t_false)
+                            if on_false and not on_true:
+                                res = allv - res          # the release sits on the "comparison false" side
+                            elif on_true == on_false:
+                                undecided = True          # the comparison does not select between releasing and not releasing
+                        if undecided:
+                            continue
                         ctx.check(bool(vs) and res <= ring_empty, "R04.6", fnkey(tb) + "#wakes-on-ring-empty-only", loc(tb, c.bb),
                                   "the tracker treats the outcomes %s as `queue drained`, but only %s means the ring was empty: after a drain that stopped early "
                                   "the waiting flush requests are completed although entries appended before them are still queued" % (sorted(res), sorted(ring_empty)),
@@ -370,7 +398,8 @@ def run(ctx):
             continue
         cf = counters[0]
         releases = {c.bb for b_, c in trackers if b_ is tb} | virtual_release.get(tb.def_, set())
-        is_push = lambda bd, bpr, x: x.is_in("alloc::vec", "Vec::push", "Vec::extend", "Vec::append") and x.args and \
+        is_push = lambda bd, bpr, x: (x.is_in("alloc::vec", "Vec::push", "Vec::extend", "Vec::append", "Vec::extend_from_slice", "Vec::insert") or
+                                      (x.is_trait_method("Extend", "extend") and "Vec<" in (x.self_ty or ""))) and x.args and \
             any(y[0] == "arg" and y[1] == 1 and y[2] and y[2][-1] in wvf for y in bpr.operand(x.args[0]))
         pushes = [x for x in tb.calls() if is_push(tb, pr, x)]
         for x, hb in helper_calls:
